@@ -13,15 +13,18 @@ NA = {
 PENDING = 'check not built yet in this session (see DESIGN.md section 8 build order); not claimed until it runs clean'
 
 LEVEL_TEXT = {
+    'C02': 'Translation validation per one-operator function: the function is executed under Go-specification semantics (go/ssa) and on the LLVM IR that llgo\'s real pipeline (build.Do) emits for it; the solver proves equal result / equal panic status and absence of LLVM poison or UB for ALL operand values at full width (633 functions: every operator x 11 integer types, all 121 shift operand/count pairs, all integer conversion pairs, float32/64 arithmetic, comparisons and int<->float conversions, complex + - * == !=).',
     'C05': 'Bounded symbolic verification of the runtime slice/string kernels (go/ssa of runtime/internal/runtime executed symbolically): one step from an arbitrary valid pre-state per kernel, all element values and all header values within the stated element-count bounds; UTF-8 decode/encode differential against unicode/utf8 for all byte strings <= 5 bytes and all 2^32 runes. The solver verdict covers every input inside the bounds; nothing is sampled.',
     'C17': 'Bounded symbolic verification of the round-trip laws of shellparse.Parse and safesplit.SplitPkgConfigFlags over all argument lists within the stated rune/byte bounds (runes symbolic over Latin-1 plus wide runes, bytes fully symbolic).',
     'C18': 'Bounded symbolic verification of targets.Loader: the merge law for every field of Config (harness generated from the struct definition at check time) and inheritance resolution over all graphs on 2-3 nodes (chains, diamonds, cycles, self-loops, missing parents) against an independent reference, as a history of loads through one loader.',
 }
 NOTE = {
+    'C02': 'Trusted: z3/cvc5, go/ssa, symx encodings of Go operator semantics and of LLVM LangRef 14 (poison rules), LLVM 14 binding as IR producer (instruction selection by llgo\'s cl/ssa is the same Go code as with LLVM 19). Wide division is abstracted as an uninterpreted function with concrete-evaluation refinement (sound for unsat). Float->int only on the representable range; complex division, NaN payloads and constant-folded expressions are outside.',
     'C05': 'Trusted: z3/cvc5, go/ssa, symx encodings of Go semantics and of memcpy/memmove/AllocZ/AllocU (DESIGN.md 2.4). Bounds: backing store <= 4 elements, element sizes {0,1,2,3,8,24}, appended <= 3 elements; longer histories are covered by induction on the slice invariant 0<=len<=cap. Compiler lowering of the operations is not part of this check.',
     'C17': 'Arguments are valid UTF-8; <= 3 runes per argument / <= 2 arguments; pkg-config bodies <= 3 bytes, domain assumptions stated in the harness (no leading dash, no trailing backslash, no edge white space - the latter is a recorded known finding). Build tags, -X parsing and $()/env expansion are outside this check.',
     'C18': 'Strings <= 2 bytes, lists <= 2 entries, graphs <= 3 nodes with <= 2 parents each; os.ReadFile is a stub that fails (missing file). The sweep over the shipped targets/*.json is concrete enumeration and outside this technique.',
 }
+TECH_TV = 'SMT-based translation validation: Go-spec semantics of go/ssa vs. symbolic execution of llgo-emitted LLVM IR (QF_BV/FP, z3/cvc5), counterexamples replayed via llc-14 + C driver against the Go toolchain'
 TECH = 'SMT-based bounded symbolic execution of the real Go code (go/ssa -> QF_BV, z3/cvc5), counterexamples replayed natively'
 
 checks = []
@@ -36,7 +39,7 @@ for pid in sorted(spec.PROPS):
         'engine': 'symx',
         'level_claimed': {'category': P.get('level', 'other'), 'text': LEVEL_TEXT.get(pid, ''), 'design_ref': 'DESIGN.md section 3, ' + pid},
         'level_note': NOTE.get(pid, ''),
-        'technique': P.get('technique', TECH),
+        'technique': P.get('technique', TECH_TV if P.get('level') == 'translation_validation' else TECH),
     })
 na = []
 for l in open(os.path.join(os.path.dirname(os.path.abspath(__file__)), 'properties.jsonl')):
